@@ -283,8 +283,8 @@ Theorem C17_gen_quote_plus_is_model : forall v, gen_quote_plus quote_plus_defaul
 Proof. exact gen_quote_plus_is_model. Qed.
 Print Assumptions C17_gen_quote_plus_is_model.
 
-Theorem C17_gen_route_path_is_model : forall c e rs n els o kw,
-  gen_route_path c e rs n els o kw = route_path c e rs n els o kw.
+Theorem C17_gen_route_path_is_model : forall c e xs rs n els o kw,
+  gen_route_path c e xs rs n els o kw = route_path_x c e xs rs n els o kw.
 Proof. exact gen_route_path_is_model. Qed.
 Print Assumptions C17_gen_route_path_is_model.
 
@@ -298,8 +298,8 @@ Theorem C17_gen_static_path_is_model : forall e rs regs path o kw,
 Proof. exact gen_static_path_is_model. Qed.
 Print Assumptions C17_gen_static_path_is_model.
 
-Theorem C17_gen_current_route_path_is_model : forall c e rs rname matched md gt els o kw,
-  gen_current_route_path c e rs rname matched md gt els o kw = current_route_path c e rs rname matched md gt els o kw.
+Theorem C17_gen_current_route_path_is_model : forall c e xs rs rname matched md gt els o kw,
+  gen_current_route_path c e xs rs rname matched md gt els o kw = current_route_path_x c e xs rs rname matched md gt els o kw.
 Proof. exact gen_current_route_path_is_model. Qed.
 Print Assumptions C17_gen_current_route_path_is_model.
 
@@ -335,15 +335,16 @@ Theorem C17_gen_parse_url_overrides_spec : forall e o app qs fr,
 Proof. exact gen_parse_url_overrides_spec. Qed.
 Print Assumptions C17_gen_parse_url_overrides_spec.
 
-Theorem C17_gen_route_path_is_url_minus_authority : forall c e rs n els o kw u,
-  o_app_url o = None -> route_url c e rs n els o kw = Ok u ->
-  exists p, gen_route_path c e rs n els o kw = Ok p /\ u = host_part e o ++ p.
+Theorem C17_gen_route_path_is_url_minus_authority : forall c e xs rs n els o kw u,
+  assoc n xs = None -> o_app_url o = None -> route_url c e rs n els o kw = Ok u ->
+  exists p, gen_route_path c e xs rs n els o kw = Ok p /\ u = host_part e o ++ p.
 Proof. exact gen_route_path_is_url_minus_authority. Qed.
 Print Assumptions C17_gen_route_path_is_url_minus_authority.
 
-Theorem C17_gen_current_route_path_is_url_minus_authority : forall c e rs rname matched md gt els o kw u,
+Theorem C17_gen_current_route_path_is_url_minus_authority : forall c e xs rs rname matched md gt els o kw u,
+  (forall n, assoc n xs = None) ->
   o_app_url o = None -> current_route_url c e rs rname matched md gt els o kw = Ok u ->
-  exists p, gen_current_route_path c e rs rname matched md gt els o kw = Ok p /\ u = host_part e o ++ p.
+  exists p, gen_current_route_path c e xs rs rname matched md gt els o kw = Ok p /\ u = host_part e o ++ p.
 Proof. exact gen_current_route_path_is_url_minus_authority. Qed.
 Print Assumptions C17_gen_current_route_path_is_url_minus_authority.
 
@@ -356,3 +357,15 @@ Print Assumptions C17_request_history_irrelevant.
 Theorem C17_request_memo_refuted : exists hist e, quoted_script_name_frozen hist e <> quoted_script_name e.
 Proof. exact request_memo_refuted. Qed.
 Print Assumptions C17_request_memo_refuted.
+
+(* routes registered with a full URL as pattern *)
+Theorem C17_external_route_authority : forall c e xs rs n els o kw x u,
+  assoc n xs = Some x -> route_url_x c e xs rs n els o kw = Ok u ->
+  o_app_url o = None /\ exists rest, u = ext_app_url e o x ++ rest.
+Proof. exact external_route_authority. Qed.
+Print Assumptions C17_external_route_authority.
+
+Theorem C17_external_route_path_refused : forall c e xs rs n els o kw x p,
+  assoc n xs = Some x -> assoc n rs <> None -> route_path_x c e xs rs n els o kw = Ok p -> False.
+Proof. exact external_route_path_refused. Qed.
+Print Assumptions C17_external_route_path_refused.
